@@ -1,7 +1,7 @@
 (* C16 -- property theorems only.  Each is closed by [exact] of a lemma from Proofs.v. *)
 From Coq Require Import List Bool Arith PrimFloat.
 Import ListNotations.
-Require Import NV.C16.Model NV.C16.Proofs NV.C16.ProofsBFGS.
+Require Import NV.C16.Model NV.C16.Proofs NV.C16.ProofsBFGS NV.C16.ModelRing NV.C16.ProofsRing.
 
 (* Soundness of the line search, control flow only: NO law about the arithmetic [A] is assumed, so
    the statement holds verbatim for IEEE doubles ([float_arith]), for every value function phi
@@ -137,3 +137,39 @@ Theorem C16_lbfgs_equiv_empty :
         vl_direction f0 f1 fadd fmul fsub fdiv fopp dim 0 s y g gnorm i =
         lbfgs_direction f0 fadd fmul fsub fdiv fopp dim 0 s y g i.
 Proof. exact ProofsBFGS.lbfgs_equiv0. Qed.
+
+
+(* The window abstraction of the two theorems above, discharged for the ring buffers: for every
+   payload type, every capacity max_history_length >= 1 and EVERY sequence l of add_new_point calls
+   (any length, so any number of wrap-arounds), the model of _InformationStore (slot written:
+   k % mmax; history_length = min(k, mmax); slots read by .b: (k-m+i) % mmax) reports
+   m = min(k, mmax) and its read-out is, entry by entry, the (k-m+i)-th pushed element:
+   the last m pushed pairs, oldest first. *)
+Theorem C16_ring_window :
+  forall (X : Type) (mmax : nat) (l : list X), 1 <= mmax ->
+    let k := length l in let m := Nat.min k mmax in
+    history_length X mmax (ring_pushes X mmax l) = m /\
+    ring_readout X mmax (ring_pushes X mmax l)
+      = map (fun i => nth_error l (k - m + i)) (seq 0 m).
+Proof. exact ring_readout_window. Qed.
+
+(* ... and every one of these m entries is a stored element (never the initial None of the buffer,
+   never an index outside the pushed sequence). *)
+Theorem C16_ring_defined :
+  forall (X : Type) (mmax : nat) (l : list X) (i : nat), 1 <= mmax ->
+    i < Nat.min (length l) mmax ->
+    exists x, nth_error (ring_readout X mmax (ring_pushes X mmax l)) i = Some (Some x) /\
+              nth_error l (length l - Nat.min (length l) mmax + i) = Some x.
+Proof. exact ring_readout_defined. Qed.
+
+(* The slot k1 = (k-1) % mmax, which b_dot_b refreshes as "the newest pair", holds the element of
+   the last add_new_point call. *)
+Theorem C16_ring_newest :
+  forall (X : Type) (mmax : nat) (l : list X) (v : X), 1 <= mmax ->
+    ring_newest X mmax (ring_pushes X mmax (l ++ [v])) = Some v.
+Proof. exact ring_newest_last. Qed.
+
+(* Non-vacuity / wrap-around: capacity 3, five pushes -> the last three, oldest first. *)
+Example C16_ring_example :
+  ring_readout nat 3 (ring_pushes nat 3 [10; 11; 12; 13; 14]) = [Some 12; Some 13; Some 14].
+Proof. vm_compute. reflexivity. Qed.
